@@ -23,7 +23,7 @@ def known(rep):
 def run(rep, tier, seed):
     flow.run_gen(rep, {'Steps'}, seed, 10 if tier == 'quick' else 100)
     flow.run_proofs(rep, PROOFS, extra_scan=['Tsv.Gen.Steps'])
-    fails, st = osde.reversibility_search(random.Random(seed), 12 if tier == 'quick' else 200)
+    fails, st = core.safe(osde.reversibility_search, random.Random(seed), 12 if tier == 'quick' else 200)
     rep.cov['real_code_oracle'] = st
     rep.ob('oracle:forward-then-reverse-on-real-sdeint', f"{st['evals']} runs", not fails, json.dumps(fails[:1])[:800])
     rep.cov.update(evaluations=st['evals'], distinct_nontrivial=st['evals'],
